@@ -25,6 +25,7 @@ class Recorder:
         self.snaps = []           # snapshot after every op
         self.box_at_call = []     # (lo, hi) in force at each cost call (None when no strict ranges)
         self.cost_args = []       # the extra positional arguments each cost call received (ExtraArgs)
+        self.monadd = []          # (which, len(left) before, len(left + other), len(other)) for every monadd op
         self.epoch = 0
 
 
@@ -359,6 +360,20 @@ def run_trace(spec, seed):
                 from mystic.monitors import Monitor, Null
                 kindm = op[2] if len(op) > 2 else "monitor"
                 s.SetGenerationMonitor(Monitor(k=op[3]) if kindm == "k" else {"monitor": Monitor(), "none": None, "null": Null()}[kindm], new=bool(op[1]))
+            elif k == "monadd":
+                # a user-level monitor operation on a monitor that is still attached: `merged = solver_monitor + other` builds a
+                # NEW monitor (records of the left operand followed by those of the right); the operands stay as they are
+                from mystic.monitors import Monitor
+                other = Monitor()
+                nd = len(s.population[0]) if len(s.population) else 1
+                other([0.25] * nd, 7.0); other([0.5] * nd, 3.0)
+                left = s._stepmon if op[1] == "step" else s._evalmon
+                try:
+                    n_left = len(left)
+                    merged = left + other
+                    rec.monadd.append((op[1], n_left, len(merged), len(other)))
+                except Exception as exc:          # Null monitors do not add
+                    rec.monadd.append((op[1], -1, -1, type(exc).__name__))
             else:
                 raise ValueError(op)
             sn = snapshot(s, rec, op, ret)
